@@ -1,7 +1,422 @@
-//! C12 — not built yet.
-use lv_common::Ctx;
+//! C12 — Blob commitments follow the share-commitment rules.
+//!
+//! Oracle: an independent implementation (lv_gen::refs: own sparse-share splitter, ADR-013 subtree width and
+//! merkle-mountain-range partition, own NMT hashing, own RFC-6962 root; sha2 only) must equal `blob.commitment`,
+//! and `Blob::validate` must accept exactly when the stored commitment equals the reference value computed from
+//! the blob's *current* fields.
+use celestia_types::consts::appconsts::AppVersion;
+use celestia_types::nmt::Namespace;
+use celestia_types::state::AccAddress;
+use celestia_types::{Blob, Commitment};
+use lv_common::prelude::*;
+use lv_gen::blob::{Fill, app_version, fill_strategy, len_range_for_count, ns_id_strategy, payload, refs_selfcheck, user_namespace};
+use lv_gen::refs;
 
-pub fn run(_ctx: &mut Ctx) {
-    eprintln!("C12: check not built yet");
-    std::process::exit(2);
+/// SubtreeRootThreshold of celestia-app (appconsts, identical in every released app version 1..=7).
+/// Kept here as the specification's value, deliberately NOT read from celestia_types::consts.
+fn spec_threshold(_app: AppVersion) -> u64 {
+    64
+}
+
+#[derive(Clone, Copy, Debug, Serialize, Deserialize)]
+pub enum LenPos {
+    /// shortest data occupying exactly `count` shares
+    Min,
+    /// longest data occupying exactly `count` shares (last share completely full)
+    Max,
+    Mid(u16),
+}
+
+#[derive(Clone, Debug, Serialize, Deserialize)]
+pub enum Tamper {
+    DataBit { pos: u16, bit: u8 },
+    DataAppend(u8),
+    DataTruncate,
+    NamespaceBit { byte: u8, bit: u8 },
+    SignerBit { pos: u8, bit: u8 },
+    SignerRemove,
+    SignerAdd([u8; 20]),
+    ShareVersion(u8),
+    CommitmentBit { pos: u8, bit: u8 },
+}
+
+#[derive(Clone, Debug, Serialize, Deserialize)]
+pub struct Case {
+    pub count: u32,
+    pub pos: LenPos,
+    pub signer: Option<[u8; 20]>,
+    pub app: u8,
+    pub ns_id: [u8; 10],
+    pub fill: Fill,
+    pub seed: u64,
+    pub tampers: Vec<Tamper>,
+}
+
+fn tamper_strategy() -> impl Strategy<Value = Tamper> {
+    prop_oneof![
+        4 => (any::<u16>(), 0u8..8).prop_map(|(pos, bit)| Tamper::DataBit { pos, bit }),
+        1 => any::<u8>().prop_map(Tamper::DataAppend),
+        1 => Just(Tamper::DataTruncate),
+        2 => (0u8..10, 0u8..8).prop_map(|(byte, bit)| Tamper::NamespaceBit { byte, bit }),
+        2 => (0u8..20, 0u8..8).prop_map(|(pos, bit)| Tamper::SignerBit { pos, bit }),
+        1 => Just(Tamper::SignerRemove),
+        1 => any::<[u8; 20]>().prop_map(Tamper::SignerAdd),
+        2 => prop_oneof![Just(0u8), Just(1), Just(2), Just(127), any::<u8>()].prop_map(Tamper::ShareVersion),
+        3 => (0u8..32, 0u8..8).prop_map(|(pos, bit)| Tamper::CommitmentBit { pos, bit }),
+    ]
+}
+
+fn systematic_tampers(count: u32, k: u32) -> Vec<Tamper> {
+    // a deterministic, rotating selection for the enumerated counts
+    let all = [
+        Tamper::DataBit { pos: (count.wrapping_mul(7919) % 65536) as u16, bit: (count % 8) as u8 },
+        Tamper::CommitmentBit { pos: (count % 32) as u8, bit: (count / 32 % 8) as u8 },
+        Tamper::NamespaceBit { byte: (count % 10) as u8, bit: (count / 10 % 8) as u8 },
+        Tamper::SignerBit { pos: (count % 20) as u8, bit: (count / 20 % 8) as u8 },
+        Tamper::DataBit { pos: 65535, bit: 0 },
+        Tamper::DataBit { pos: 0, bit: 7 },
+        Tamper::DataAppend(count as u8),
+        Tamper::DataTruncate,
+        Tamper::ShareVersion((count % 3) as u8),
+        Tamper::SignerRemove,
+        Tamper::SignerAdd([count as u8; 20]),
+    ];
+    (0..k as usize).map(|i| all[(count as usize + i * 5) % all.len()].clone()).collect()
+}
+
+/// reference commitment of arbitrary blob fields; None when (share_version, signer, app) is not a legal blob
+fn reference(ns: &Namespace, data: &[u8], share_version: u8, signer: Option<&AccAddress>, app: AppVersion) -> Option<[u8; 32]> {
+    use celestia_types::state::AddressTrait;
+    let legal = match (share_version, signer) {
+        (0, None) => true,
+        (1, Some(_)) => app >= AppVersion::V3,
+        _ => false,
+    };
+    if !legal || data.is_empty() {
+        return None;
+    }
+    let nsb: [u8; refs::NS] = ns.as_bytes().try_into().unwrap();
+    let sb: Option<[u8; 20]> = signer.map(|s| s.as_bytes().try_into().unwrap());
+    let shares = refs::ref_split_blob(&nsb, data, share_version, sb.as_ref());
+    Some(refs::ref_commitment(&nsb, &shares, spec_threshold(app)))
+}
+
+fn check(case: &Case, obs: &mut Obs) -> Result<(), Failure> {
+    let signed = case.signer.is_some();
+    let app = app_version(if signed { case.app.max(3) } else { case.app });
+    let count = case.count.max(1) as usize;
+    let (lo, hi) = len_range_for_count(count, signed);
+    let len = match case.pos {
+        LenPos::Min => lo,
+        LenPos::Max => hi,
+        LenPos::Mid(s) => lo + pick(s, hi - lo + 1),
+    };
+    let ns = user_namespace(case.ns_id);
+    let data = payload(case.seed, len, case.fill);
+    let signer = case.signer.map(AccAddress::from);
+    let th = spec_threshold(app);
+    let width = refs::subtree_width(count as u64, th);
+    let sizes = refs::mmr_sizes(count as u64, width);
+    let what = format!("shares={count} len={len} signed={signed} app={app:?} subtree_width={width} mmr={}", summarize(&sizes));
+
+    // ---- honest blob
+    let multi = count >= 2 && sizes.len() >= 2;
+    obs.eval(multi.then(|| digest_of(&(case.count, len, signed, case.app, case.ns_id, case.seed))));
+    obs.label(if signed { "share-version-1" } else { "share-version-0" });
+    obs.label(&format!("app-v{}", app.as_u64()));
+    if multi {
+        obs.label("mmr-multi-tree");
+    }
+    if width > 1 {
+        obs.label("subtree-width>1");
+    }
+    if sizes.iter().any(|s| *s < width) && sizes.iter().any(|s| *s == width) && width > 1 {
+        obs.label("mmr-full-and-partial-trees");
+    }
+    if refs::round_up_pow2((count as u64).div_ceil(th)) > refs::blob_min_square_size(count as u64) {
+        obs.label("width-capped-by-min-square-size");
+    }
+    if count as u64 % th <= 1 || count as u64 % th == th - 1 {
+        obs.label("count-within-1-of-threshold-multiple");
+    }
+    if count == 1 {
+        obs.label("single-share");
+    }
+    if count >= 1000 {
+        obs.label("count>=1000");
+    }
+    match case.pos {
+        LenPos::Min => obs.label("len-min-for-count"),
+        LenPos::Max => obs.label("len-max-for-count"),
+        LenPos::Mid(_) => {}
+    }
+
+    let expect = reference(&ns, &data, signed as u8, signer.as_ref(), app).ok_or_else(|| Failure::new("gen", "honest blob has no reference"))?;
+    let blob = match Blob::new(ns, data.clone(), signer, app) {
+        Ok(b) => b,
+        Err(e) => {
+            obs.fail("C12:blob-new-failed", format!("Blob::new failed ({what}): {e}"))?;
+            return Ok(());
+        }
+    };
+    obs.check(blob.commitment.hash() == &expect, "C12:commitment-differs-from-reference", || {
+        format!("blob.commitment = {} but the independent ADR-013 implementation gives {} ({what})", hex::encode(blob.commitment.hash()), hex::encode(expect))
+    })?;
+    if count <= 600 {
+        match blob.to_shares().and_then(|s| Commitment::from_shares(ns, &s, app)) {
+            Ok(c) => obs.check(c.hash() == &expect, "C12:from-shares-differs-from-reference", || format!("Commitment::from_shares differs from the reference ({what})"))?,
+            Err(e) => obs.fail("C12:from-shares-failed", format!("Commitment::from_shares failed ({what}): {e}"))?,
+        }
+    }
+    if let Err(e) = blob.validate(app) {
+        obs.fail("C12:validate-rejects-correct-commitment", format!("validate rejected an untouched blob ({what}): {e}"))?;
+    }
+    // other app versions share the threshold: the stored commitment stays the reference value there too
+    let other = app_version(if signed { 3 + (case.app + 2) % 5 } else { 1 + (case.app + 2) % 7 });
+    if other != app && count <= 300 {
+        obs.eval(None);
+        obs.label("validate-under-other-app-version");
+        if let Err(e) = blob.validate(other) {
+            obs.fail("C12:validate-rejects-correct-commitment", format!("validate({other:?}) rejected a blob created under {app:?} although the rules are identical ({what}): {e}"))?;
+        }
+    }
+
+    // ---- tampering
+    for (ti, t) in case.tampers.iter().enumerate() {
+        let mut b = blob.clone();
+        let label: &str;
+        match t {
+            Tamper::DataBit { pos, bit } => {
+                let p = pick(*pos, b.data.len());
+                b.data[p] ^= 1 << bit;
+                label = "tamper-data-bit";
+            }
+            Tamper::DataAppend(x) => {
+                b.data.push(*x);
+                label = "tamper-data-append";
+            }
+            Tamper::DataTruncate => {
+                if b.data.len() < 2 {
+                    continue;
+                }
+                b.data.pop();
+                label = "tamper-data-truncate";
+            }
+            Tamper::NamespaceBit { byte, bit } => {
+                let mut id: [u8; 10] = b.namespace.id_v0().unwrap().try_into().unwrap();
+                id[*byte as usize % 10] ^= 1 << bit;
+                b.namespace = Namespace::const_v0(id);
+                label = "tamper-namespace";
+            }
+            Tamper::SignerBit { pos, bit } => {
+                use celestia_types::state::AddressTrait;
+                let Some(s) = b.signer else { continue };
+                let mut raw: [u8; 20] = s.as_bytes().try_into().unwrap();
+                raw[*pos as usize % 20] ^= 1 << bit;
+                b.signer = Some(AccAddress::from(raw));
+                label = "tamper-signer-bit";
+            }
+            Tamper::SignerRemove => {
+                if b.signer.is_none() {
+                    continue;
+                }
+                b.signer = None;
+                label = "tamper-signer-removed";
+            }
+            Tamper::SignerAdd(s) => {
+                if b.signer.is_some() {
+                    continue;
+                }
+                b.signer = Some(AccAddress::from(*s));
+                label = "tamper-signer-added";
+            }
+            Tamper::ShareVersion(v) => {
+                if *v == b.share_version {
+                    continue;
+                }
+                b.share_version = *v;
+                label = "tamper-share-version";
+            }
+            Tamper::CommitmentBit { pos, bit } => {
+                let mut h = *b.commitment.hash();
+                h[*pos as usize % 32] ^= 1 << bit;
+                b.commitment = Commitment::new(h);
+                label = "tamper-commitment";
+            }
+        }
+        // soundness rule 2: the tamper really changed the value
+        if b == blob {
+            obs.label("tamper-noop-skipped");
+            continue;
+        }
+        let r = reference(&b.namespace, &b.data, b.share_version, b.signer.as_ref(), app);
+        let want_ok = r.is_some_and(|r| &r == b.commitment.hash());
+        obs.eval(Some(digest_of(&(case.count, len, signed, case.app, case.ns_id, case.seed, ti, t))));
+        obs.label(label);
+        if r.is_none() {
+            obs.label("tamper-makes-illegal-version-signer-combination");
+        }
+        let got = b.validate(app);
+        if got.is_ok() != want_ok {
+            if got.is_ok() {
+                obs.fail(
+                    "C12:validate-accepts-wrong-commitment",
+                    format!("validate accepted a tampered blob ({label}: {t:?}) whose stored commitment differs from the reference over its current fields ({what})"),
+                )?;
+            } else {
+                obs.fail("C12:validate-rejects-correct-commitment", format!("validate rejected after {label} although stored == reference ({what})"))?;
+            }
+        }
+        // "accepts exactly when": re-commit the tampered fields with the REFERENCE value -> must be accepted
+        if let Some(r) = r {
+            if !matches!(t, Tamper::CommitmentBit { .. }) {
+                b.commitment = Commitment::new(r);
+                obs.eval(Some(digest_of(&(case.count, len, signed, case.app, case.ns_id, case.seed, ti, t, "recommit"))));
+                obs.label("tamper-then-recommit-with-reference");
+                if let Err(e) = b.validate(app) {
+                    obs.fail(
+                        "C12:validate-rejects-correct-commitment",
+                        format!("after {label} the stored commitment was set to the reference value of the new fields, yet validate failed: {e} ({what})"),
+                    )?;
+                }
+            }
+        }
+    }
+    Ok(())
+}
+
+fn summarize(sizes: &[u64]) -> String {
+    // run-length summary, e.g. "8x4,2,1"
+    let mut out = Vec::new();
+    let mut i = 0;
+    while i < sizes.len() {
+        let mut j = i;
+        while j < sizes.len() && sizes[j] == sizes[i] {
+            j += 1;
+        }
+        out.push(if j - i > 1 { format!("{}x{}", j - i, sizes[i]) } else { format!("{}", sizes[i]) });
+        i = j;
+    }
+    out.join(",")
+}
+
+fn listed_counts(thorough: bool) -> Vec<u32> {
+    let mut v: Vec<u32> = (1..=300).collect();
+    for k in 1..=80u32 {
+        v.extend([64 * k - 1, 64 * k, 64 * k + 1]);
+    }
+    let mut p = 1u32;
+    while p <= 5000 {
+        v.push(p);
+        p *= 2;
+    }
+    v.extend((1..=70u32).map(|i| i * i));
+    v.push(5000);
+    // beyond the stated 5000: the first counts at which the min-square-size term of ADR-013 is the smaller one
+    v.extend([8192, 8193]);
+    if thorough {
+        v.extend([8191, 10_000, 16_384, 16_385, 20_000]);
+    }
+    v.sort();
+    v.dedup();
+    v
+}
+
+fn listed_cases(thorough: bool) -> Vec<Case> {
+    let mut out = Vec::new();
+    for count in listed_counts(thorough) {
+        let variants: &[(bool, LenPos)] = if thorough || count <= 300 {
+            &[(false, LenPos::Max), (false, LenPos::Min), (true, LenPos::Max), (true, LenPos::Min)]
+        } else if count % 2 == 0 {
+            &[(false, LenPos::Max), (true, LenPos::Min)]
+        } else {
+            &[(false, LenPos::Min), (true, LenPos::Max)]
+        };
+        for (vi, (signed, pos)) in variants.iter().enumerate() {
+            let mut rng = lv_common::Prng::new(((count as u64) << 3) | vi as u64);
+            let k = if count <= 300 { 4 } else { 2 };
+            out.push(Case {
+                count,
+                pos: *pos,
+                signer: signed.then(|| rng.array::<20>()),
+                app: if *signed { 3 + ((count + vi as u32) % 5) as u8 } else { 1 + ((count + vi as u32) % 7) as u8 },
+                ns_id: rng.array::<10>(),
+                fill: if count % 13 == 0 { Fill::Zeros } else { Fill::Random },
+                seed: rng.next_u64(),
+                tampers: systematic_tampers(count + vi as u32, k),
+            });
+        }
+    }
+    // spread the expensive (large) blobs over the worker chunks
+    let n = out.len();
+    let mut idx: Vec<usize> = (0..n).collect();
+    idx.sort_by_key(|i| (i % 64, *i));
+    idx.into_iter().map(|i| out[i].clone()).collect()
+}
+
+fn case_strategy(max_count: u32) -> impl Strategy<Value = Case> {
+    (
+        prop_oneof![
+            5 => 1u32..=300,
+            2 => (1u32..=80, -1i32..=1).prop_map(|(k, d)| (64 * k as i32 + d) as u32),
+            2 => 1u32..=max_count,
+        ],
+        prop_oneof![Just(LenPos::Min), Just(LenPos::Max), any::<u16>().prop_map(LenPos::Mid)],
+        prop::option::of(any::<[u8; 20]>()),
+        1u8..=7,
+        ns_id_strategy(),
+        fill_strategy(),
+        any::<u64>(),
+        prop::collection::vec(tamper_strategy(), 0..5),
+    )
+        .prop_map(|(count, pos, signer, app, ns_id, fill, seed, mut tampers)| {
+            if count > 1000 {
+                tampers.truncate(2);
+            }
+            Case { count, pos, signer, app, ns_id, fill, seed, tampers }
+        })
+}
+
+pub fn run(ctx: &mut Ctx) {
+    if let Err(e) = refs_selfcheck() {
+        ctx.inconclusive(format!("reference implementation failed its known-answer self-check: {e}"));
+        return;
+    }
+    ctx.assume("reference = lv_gen::refs (ref_split_blob, subtree_width, mmr_sizes, nmt_leaf/nmt_inner/nmt_root, rfc_root) written from ADR-013 and go-square/inclusion (SubTreeWidth = min(roundUpPow2(ceil(n/threshold)), roundUpPow2(ceil(sqrt n))); greedy merkle mountain range; NMT with ignore-max-namespace; RFC-6962 root over the 90-byte subtree roots); it passes the known-answer checks in lv_gen::blob::refs_selfcheck (two commitments recorded from celestia-node, go-square's MMR and SubTreeWidth tables)");
+    ctx.assume("SubtreeRootThreshold = 64 for every app version 1..=7 (celestia-app appconsts), taken from the specification and not from celestia_types::consts");
+    ctx.assume("a (share_version, signer, app) combination that is not a legal blob (v0 with signer, v1 without signer or before app v3, version >= 2) has no reference commitment, so validate must reject it; sha256 collisions are excluded");
+    ctx.essential(&[
+        "mmr-multi-tree",
+        "subtree-width>1",
+        "mmr-full-and-partial-trees",
+        "width-capped-by-min-square-size",
+        "count-within-1-of-threshold-multiple",
+        "share-version-0",
+        "share-version-1",
+        "tamper-data-bit",
+        "tamper-namespace",
+        "tamper-signer-bit",
+        "tamper-share-version",
+        "tamper-commitment",
+        "tamper-then-recommit-with-reference",
+        "app-v1",
+        "app-v7",
+    ]);
+    let thorough = matches!(ctx.tier, Tier::Thorough);
+    ctx.enumerate(
+        "listed-share-counts",
+        "share counts: every 1..=300, every 64k-1/64k/64k+1 for k<=80, powers of two and perfect squares up to 5000, 5000, 8192, 8193 (thorough: +8191, 10000, 16384, 16385, 20000); data length = shortest / longest producing exactly that count; share version 0 and 1 (quick: all four combinations up to 300 shares, two above; thorough: all four); app versions rotating over 1..7 (signed 3..7); 2-4 rotating tampers each. blob.commitment == independent implementation; validate Ok <=> stored commitment == reference over the current fields; tampered fields re-committed with the reference value must validate. Non-trivial = honest blob whose merkle mountain range has >= 2 trees, or a value-changing tamper evaluation",
+        true,
+        listed_cases(thorough),
+        check,
+    );
+    let cases = ctx.tier.pick(3000, 40_000);
+    let max_count = ctx.tier.pick(5000u32, 9000u32);
+    ctx.proptest(
+        "random-blobs",
+        "random share counts (1..=300, 64k+-1, uniform up to 5000; thorough 9000), random length position within the count, share versions, app versions, namespaces, payload fills, 0..4 random tampers (data bit/append/truncate, namespace bit, signer bit/remove/add, share_version, stored commitment bit); same oracles. Non-trivial as above",
+        cases,
+        move || case_strategy(max_count),
+        check,
+    );
 }
